@@ -117,19 +117,25 @@ def xsd_alt(alts):
         return (f'<xs:complexType name="{name}"><xs:complexContent><xs:extension base="t:T"><xs:sequence>'
                 f'<xs:element name="{child}" type="xs:string"/></xs:sequence></xs:extension>'
                 f'</xs:complexContent></xs:complexType>')
+    tx = {"a": "@k='a'", "b": "@k='b'", "ja": "@j='a'", "jb": "@j='b'", "nj": "not(@j)"}
     al = "".join((f'<xs:alternative type="t:{t}"/>' if test == "default"
-                  else f'<xs:alternative test="@k=\'{test}\'" type="t:{t}"/>') for test, t in alts)
+                  else f'<xs:alternative test="{tx[test]}" type="t:{t}"/>') for test, t in alts)
     return (f'<xs:schema xmlns:xs="{cm.XS}" targetNamespace="urn:T" xmlns:t="urn:T" '
             f'elementFormDefault="qualified">'
-            f'<xs:complexType name="T"><xs:sequence/><xs:attribute name="k" type="xs:string"/></xs:complexType>'
+            f'<xs:complexType name="T"><xs:sequence/><xs:attribute name="k" type="xs:string"/>'
+            f'<xs:attribute name="j" type="xs:string"/></xs:complexType>'
             f'{tdef("TA", "x")}{tdef("TB", "y")}{tdef("TC", "z")}'
-            f'<xs:element name="E" type="t:T">{al}</xs:element></xs:schema>')
+            f'<xs:element name="E" type="t:T">{al}</xs:element>'
+            f'<xs:element name="W"><xs:complexType><xs:sequence><xs:element ref="t:E"/></xs:sequence>'
+            f'<xs:attribute name="j" type="xs:string" inheritable="true"/></xs:complexType></xs:element></xs:schema>')
 
 
 def xml_alt(inst):
     k = "" if inst["k"] == "absent" else f' k="{inst["k"]}"'
+    oj = "" if inst["oj"] == "absent" else f' j="{inst["oj"]}"'
+    j = "" if inst["j"] == "absent" else f' j="{inst["j"]}"'
     body = "" if inst["child"] == "none" else f'<t:{inst["child"]}>v</t:{inst["child"]}>'
-    return f'<t:E xmlns:t="urn:T"{k}>{body}</t:E>'
+    return f'<t:W xmlns:t="urn:T"{j}><t:E{k}{oj}>{body}</t:E></t:W>'
 
 
 def xsd_fixedws(cfg):
@@ -232,8 +238,8 @@ def run(ctx: Ctx):
                 "xsi:nil x content variant), and every substitution configuration (head, member, "
                 "member of member) x child; simple-typed element (xsi:type among simple types, fixed value in "
                 "another lexical form, nil) x instance; fixed values against the whiteSpace facet of 4 types (plain and as "
-                "simple content) x 6 text classes; XSD 1.1 type alternatives (5 alternative lists x @k x "
-                "content); quick uses a reduced family of block sets; both classes")
+                "simple content) x 6 text classes; XSD 1.1 type alternatives (11 alternative lists with tests on an own and on an inherited "
+                "attribute x own @k, own @j, inherited @j x content); quick uses a reduced family of block sets; both classes")
     ctx.assumptions += ["block sets only on the declared type, the element and blockDefault "
                         "(explicit blocks on intermediate types are outside the universe: XSD 1.0 and "
                         "1.1 differ there)", "complex types with element-only content"]
